@@ -280,6 +280,11 @@ func (e *Env) contentOf(pg uint64, b []byte, kind string, complete bool) map[str
 			"de": h.DataEnd, "me": h.MetaEnd, "mt": h.MetaTotal, "max": h.MaxSize / ps}
 	case "F":
 		next, d, m, ok := DecodeFreePage(b)
+		for _, r := range append(append([]Region{}, d...), m...) {
+			if r.ID > 1<<24 || r.Count > 1<<20 { // not a list page the store could have written
+				ok = false
+			}
+		}
 		if !ok {
 			return map[string]interface{}{"k": "G"}
 		}
